@@ -113,6 +113,16 @@ Proof.
   apply Qlt_le_weak, Qinv_lt_0_compat. lra.
 Qed.
 
+(* the squared deviations around ANY centre c exceed those around the mean by exactly n (c - mean)^2: two correct two-pass
+   implementations, whose means differ by rounding, differ in the sum of squares by n times the square of that difference -
+   the principled slack of the comparison with NumPy (harness/props/c20.py) *)
+Theorem two_pass_centre c l : l <> [] ->
+  qsum (map (fun x => qsq (x - c)) l) == qsum (map (fun x => qsq (x - qmean l)) l) + qlen l * qsq (c - qmean l).
+Proof.
+  intros Hne. rewrite (dev_expand c l), (dev_expand (qmean l) l).
+  pose proof (qlen_pos l Hne) as Hp. unfold qmean, qsq. field. lra.
+Qed.
+
 (* non-vacuity: data with a large offset, the case the one-pass formula loses in floating point *)
 Example two_pass_example :
   var_two_pass 0 [100000001#1; 100000002#1; 100000003#1] == 2 # 3 /\
